@@ -8,7 +8,9 @@ import (
 
 func nextRune(b []byte, i int) (rune, int, error) {
 	ch, size := utf8.DecodeRune(b[i:])
-	if ch == utf8.RuneError {
+	// DecodeRune reports an encoding error (or empty input) as RuneError with a size of at most 1.
+	// A correctly encoded U+FFFD has size 3 and is an ordinary character.
+	if ch == utf8.RuneError && size <= 1 {
 		return ch, i, fmt.Errorf("bad unicode rune")
 	}
 	return ch, i + size, nil
